@@ -11,7 +11,7 @@ for l in open('/verif/properties.jsonl'):
                 f"Where in the code: {', '.join(p['anchors']['files'])}")
         txt = pre.format(WT=f'{root}/{pid}', ID=pid, PROP=prop)
         prev = []
-        for L in 'ABCD':
+        for L in 'ABCDEF':
             try:
                 m = json.load(open(f'/verif/seeded/{pid}{L}/meta.json'))
                 prev.append(f" - (already done, do NOT repeat) {m['summary'][:500]}")
@@ -20,6 +20,6 @@ for l in open('/verif/properties.jsonl'):
         txt += ("\n\nThis is a LATER round. Changes already produced for this property by earlier agents:\n" + "\n".join(prev) +
                 "\nYours must be of a different kind and at a different site from these (different function or different file; if the property "
                 "spans the Python and the C++ side or several entry points, prefer the side / entry point not touched yet; multi-step histories, "
-                "boundary values and interactions between two features are welcome). Name your files with the suffixes E and F instead of A and B "
-                f"(e.g. {root}/{pid}_patchE.diff, {pid}_demoE.py, {pid}_metaE.json).")
+                "boundary values and interactions between two features are welcome). Name your files with the suffixes G and H instead of A and B "
+                f"(e.g. {root}/{pid}_patchG.diff, {pid}_demoG.py, {pid}_metaG.json).")
         print(txt)
